@@ -117,6 +117,7 @@ static void put_val(std::vector<uint8_t> &out, DataType dt, Rng &r, int flavor) 
   }
   for (int i = 0; i < w; i++) out.push_back((uint8_t)(v >> (8 * i)));
 }
+static bool md_skip = false;
 static Geo gen_geo(Rng &r, bool mesh, bool big) {
   Geo g; g.mesh = mesh;
   g.np = r.chance(4) ? 0 : (r.chance(10) ? 1 : (int)r.range(1, big ? 400 : 40));
@@ -131,6 +132,7 @@ static Geo gen_geo(Rng &r, bool mesh, bool big) {
   for (int i = 0; i < na; i++) {
     AttSpec a; a.uid = r.chance(70) ? (uint32_t)i : (uint32_t)r.biased(32); a.norm = r.chance(15);
     int sel = (int)r.below(10);
+    if (md_skip && sel >= 5) sel = (int)r.below(4);
     if (sel < 3) { a.type = i == 0 ? GeometryAttribute::POSITION : GeometryAttribute::GENERIC; a.dt = DT_FLOAT32; a.nc = r.chance(70) ? 3 : (int)r.range(1, 4); }
     else if (sel < 4) { a.type = GeometryAttribute::TEX_COORD; a.dt = DT_FLOAT32; a.nc = 2; }
     else if (sel < 5) { a.type = GeometryAttribute::COLOR; a.dt = DT_UINT8; a.nc = (int)r.range(3, 4); }
@@ -139,7 +141,7 @@ static Geo gen_geo(Rng &r, bool mesh, bool big) {
     for (auto &b : g.atts) if (b.uid == a.uid) a.uid = b.uid + 1000 + i;
     a.pred = r.chance(25) ? 0 : 1;
     if (dt_int(a.dt)) a.kind = 'I';
-    else if (a.dt == DT_FLOAT32 && r.chance(60)) { a.kind = 'Q'; a.q = r.chance(10) ? (int)r.range(1, 3) : (int)r.range(4, 12); if (r.chance(3)) a.q = (int)r.range(13, 18); }
+    else if (a.dt == DT_FLOAT32 && r.chance(getenv("SEQ_MODE") && !strcmp(getenv("SEQ_MODE"), "skip") ? 95 : 60)) { a.kind = 'Q'; a.q = r.chance(10) ? (int)r.range(1, 3) : (int)r.range(4, 12); if (r.chance(3)) a.q = (int)r.range(13, 18); }
     else a.kind = 'G';
     int flavor = (int)r.below(4);
     bool constant = r.chance(8);
@@ -305,11 +307,11 @@ int main(int argc, char **argv) {
   bool thorough = !strcmp(argv[1], "thorough");
   Rng r(strtoull(argv[2], 0, 10));
   Out o(argv[3]);
-  const char *mode = getenv("SEQ_MODE"); std::string md = mode ? mode : "all";
-  int n = thorough ? 4000 : 320;
+  const char *mode = getenv("SEQ_MODE"); std::string md = mode ? mode : "all"; md_skip = md == "skip";
+  int n = thorough ? 4000 : 320; if (md == "anim") n = 0; if (md == "skip") n = thorough ? 2500 : 260;
   long enc_fail = 0, dec_cases = 0;
   for (int i = 0; i < n; i++) {
-    bool mesh = md == "mesh" || (md == "all" && r.chance(45));
+    bool mesh = md == "mesh" || ((md == "all" || md == "skip") && r.chance(45));
     if (md == "pc" || md == "anim") mesh = false;
     Geo g = gen_geo(r, mesh, i % 40 == 0);
     bool with_md = r.chance(12);
@@ -352,7 +354,7 @@ int main(int argc, char **argv) {
     {
       std::vector<uint8_t> b2 = bytes; int junk = (int)r.below(3); for (int k = 0; k < junk; k++) b2.push_back((uint8_t)r.next());
       decode_case(o, b2, mesh, mesh ? "dmeshseq" : "dpcseq"); dec_cases++;
-      if (r.chance(50)) {   // C10: a random subset of attribute types skipped
+      if (r.chance(md == "skip" ? 100 : 50)) {   // C10: a random subset of attribute types skipped
         std::vector<int> skip; for (int t = 0; t <= 4; t++) if (r.chance(45)) skip.push_back(t);
         if (!skip.empty()) { decode_case(o, bytes, mesh, mesh ? "dmeshseq" : "dpcseq", skip); dec_cases++; bool ok2 = true; if (g.np == 0) for (auto &a : g.atts) if (a.kind != 'G') ok2 = false; if (ok2 && !(g.compress_conn)) check_skip(o, bytes, mesh, skip, gt); }
       }
@@ -363,7 +365,7 @@ int main(int argc, char **argv) {
     }
   }
   // keyframe animations (C20): a point cloud coded by the sequential codec
-  int na = (md == "all" || md == "anim") ? (thorough ? 1000 : 80) : 0;
+  int na = md == "anim" ? (thorough ? 2500 : 260) : md == "all" ? (thorough ? 1000 : 80) : 0;
   for (int i = 0; i < na; i++) {
     KeyframeAnimation anim; int frames = (int)r.range(1, i % 30 == 0 ? 3000 : 60);
     std::vector<float> ts(frames); float t = 0; for (int f = 0; f < frames; f++) { t += (float)r.range(1, 50) / 16.f; ts[f] = t; }
